@@ -119,7 +119,22 @@ def do_transfer(rig, kind, index, sub, data):
                 return ("ok", bytes(fp.read()))
         raise ValueError(kind)
     except Exception as e:  # judged by the oracle
-        return ("exc", e)
+        # keep a summary only: holding the exception would keep the failed stream object alive
+        # (traceback -> frame -> stream) and postpone whatever its destructor does; user code
+        # that catches the error lets go of it before the next transfer
+        info = ExcInfo(type(e), str(e), getattr(e, "code", None))
+    return ("exc", info)
+
+
+class ExcInfo:
+    def __init__(self, cls, text, code):
+        self.cls, self.text, self.code = cls, text, code
+
+    def is_a(self, *classes):
+        return issubclass(self.cls, classes)
+
+    def __str__(self):
+        return f"{self.cls.__name__}: {self.text}"
 
 
 STYLE = {"exp_ul": "exp_size", "exp_ul_nosize": "exp_nosize", "seg_ul_size": "seg_size",
@@ -146,7 +161,8 @@ def confusable(F, R, phase):
     if F[0] == 0x80 or R[0] == 0x80:
         return False
     if phase == "blkseg":
-        return (F[0] & 0x7F) == (R[0] & 0x7F)
+        # same sequence number: only the CRC can tell, so this is settled by the caller (run_case)
+        return False
     sf, sr = F[0] >> 5, R[0] >> 5
     if sf != sr:
         return False
@@ -275,6 +291,9 @@ def run_case(case) -> Outcome:
     kind, n, what = case["kind"], case["len"], case["dist"]["what"]
     peer = case.get("peer", "ref")
     rig = Rig(peer)
+    if peer == "ref":
+        rig.srv.block_size_indicated = case.get("size_ind", True)
+        rig.srv.crc_support = case.get("crc_srv", True)
     data = payload(n, case.get("salt", 1))
     is_dl = kind in ("exp_dl", "seg_dl_size", "seg_dl_nosize", "blk_dl")
     if is_dl:
@@ -298,6 +317,13 @@ def run_case(case) -> Outcome:
                        else "frame carries no multiplexer")
     if dis.undecidable():
         return Outcome(excluded="injected frame indistinguishable by protocol from the genuine response")
+    if kind == "blk_ul" and res[0] == "ok" and res[1] != data:
+        from harness.refcodec import crc16_xmodem
+        if not (peer == "ref" and rig.srv.crc_support) or crc16_xmodem(res[1]) == crc16_xmodem(data):
+            # a block segment with the expected sequence number but other data can only be told by the
+            # CRC: undetectable when no CRC is in effect or when the checksums collide
+            return Outcome(excluded="block upload corrupted in a way only a CRC could reveal, and none "
+                                    "was in effect (or the CRC-16 collides)")
 
     def bad(kindname, detail):
         D.append(Discrepancy(f"C07/{kindname}", f"{tag}: {detail}"))
@@ -314,15 +340,15 @@ def run_case(case) -> Outcome:
     else:
         outcome = "raised"
         e = res[1]
-        if not isinstance(e, (SdoCommunicationError, SdoAbortedError)):
-            bad(f"{what}/wrong-exception", f"{type(e).__name__}: {e}")
-        elif what == "abort" and isinstance(e, SdoAbortedError) and e.code != case["dist"]["code"]:
+        if not e.is_a(SdoCommunicationError, SdoAbortedError):
+            bad(f"{what}/wrong-exception", f"{e}")
+        elif what == "abort" and e.is_a(SdoAbortedError) and e.code != case["dist"]["code"]:
             # the injected abort may legitimately have been superseded only by the peer's own abort
             bad("abort/code", f"raised code {e.code:08x}, injected {case['dist']['code']:08x}")
-        elif what == "abort" and not isinstance(e, SdoAbortedError):
-            bad("abort/not-aborted-error", f"{type(e).__name__}: {e}")
+        elif what == "abort" and not e.is_a(SdoAbortedError):
+            bad("abort/not-aborted-error", f"{e}")
         if what in ("drop", "late_before", "late_between") and TIMEOUT_ABORT not in [bytes(f) for f in client_frames]:
-            bad(f"{what}/no-timeout-abort", f"response lost, {type(e).__name__} raised, but the client sent "
+            bad(f"{what}/no-timeout-abort", f"response lost, {e.cls.__name__} raised, but the client sent "
                 f"no abort 0x05040000 (its frames: {[bytes(f).hex() for f in client_frames[-3:]]})")
     # ---- follow-up -------------------------------------------------------
     if not D:
@@ -347,8 +373,8 @@ def run_case(case) -> Outcome:
         if len(dis.injected) > n_inj and res2[0] != "ok":
             # the late frame landed inside this transfer, which is therefore a disturbed one itself:
             # it may fail loudly; the transfer after it must then succeed
-            if not isinstance(res2[1], (SdoCommunicationError, SdoAbortedError)):
-                bad(f"{what}/follow-up-wrong-exception", f"{type(res2[1]).__name__}: {res2[1]}")
+            if not res2[1].is_a(SdoCommunicationError, SdoAbortedError):
+                bad(f"{what}/follow-up-wrong-exception", f"{res2[1]}")
             else:
                 if f_dl:
                     rig.clear(IDX2, SUB2)
@@ -356,8 +382,7 @@ def run_case(case) -> Outcome:
         if D:
             pass
         elif res2[0] != "ok":
-            bad(f"{what}/follow-up-failed", f"undisturbed follow-up {fk} len {n2} raised "
-                f"{type(res2[1]).__name__}: {res2[1]}")
+            bad(f"{what}/follow-up-failed", f"undisturbed follow-up {fk} len {n2} raised {res2[1]}")
         elif f_dl and rig.committed(IDX2, SUB2) != data2:
             bad(f"{what}/follow-up-wrong-commit", f"follow-up {fk}: server holds "
                 f"{rig.committed(IDX2, SUB2)} want {data2.hex()}")
@@ -375,7 +400,7 @@ STALE = [
     bytes([0x1D]) + b"S\0\0\0\0\0\0", bytes([0x20]) + bytes(7), bytes([0x30]) + bytes(7),
     bytes([0xA2, 3, 127]) + bytes(5), bytes([0xA1]) + bytes(7), struct.pack("<BHBB3x", 0xA4, IDX, SUB, 127),
     struct.pack("<BHBL", 0xC6, IDX, SUB, 9), bytes([0xC1 | (2 << 2), 0x12, 0x34]) + bytes(5),
-    bytes([0x02]) + b"SEQ0002", bytes([0x81]) + b"LASTSEG",
+    bytes([0x02]) + b"SEQ0002", bytes([0x81]) + b"LASTSEG", bytes([0x01]) + b"SEQ0001", bytes([0x03]) + b"SEQ0003",
     # responses for a neighbouring object: each differs from the expected multiplexer in one field only
     struct.pack("<BHBL", 0x43, IDX, SUB + 1, 0x0D0C0B0A), struct.pack("<BHBL", 0x43, IDX + 1, SUB, 0x0D0C0B0A),
     struct.pack("<BHBL", 0x43, IDX ^ 0x100, SUB, 0x0D0C0B0A), struct.pack("<BHBL", 0x41, IDX, SUB + 1, 6),
@@ -423,8 +448,12 @@ def enum_cases():
                         peers = ["ref", "canopen"]
                     for peer in peers:
                         i += 1
-                        yield {"kind": kind, "len": n, "k": k, "dist": dist, "peer": peer, "salt": i % 9,
-                               "follow": FOLLOW[i % len(FOLLOW)], "follow_len": [9, 3, 16, 2, 12, 20][i % 6]}
+                        case = {"kind": kind, "len": n, "k": k, "dist": dist, "peer": peer, "salt": i % 9,
+                                "follow": FOLLOW[i % len(FOLLOW)], "follow_len": [9, 3, 16, 2, 12, 20][i % 6]}
+                        if kind == "blk_ul":
+                            case["size_ind"] = i % 2 == 0
+                            case["crc_srv"] = i % 5 != 0
+                        yield case
 
 
 @st.composite
@@ -453,6 +482,7 @@ def rand_case(draw):
             not (kind == "seg_ul_size" and n <= 4) and not (kind == "exp_ul" and False):
         peer = draw(st.sampled_from(["ref", "canopen"]))
     return {"kind": kind, "len": n, "k": k, "dist": dist, "peer": peer, "salt": draw(st.integers(0, 50)),
+            "size_ind": draw(st.booleans()), "crc_srv": draw(st.integers(0, 4)) != 0,
             "follow": draw(st.sampled_from(FOLLOW + ["blk_dl", "blk_ul"] if peer == "ref" else FOLLOW)),
             "follow_len": draw(st.integers(1, 40))}
 
